@@ -260,11 +260,21 @@ class FitWorld:
             es.enter_context(observe(sg.IndividualGibbsSampler, "sample", b_sample, a_sample))
             self.stdout = so
             try:
-                settings = AlgorithmSettings("mcmc_saem", **self.algo_kwargs())
+                kw_algo = self.algo_kwargs()
+                late = None
+                if cfg.get("via_load_parameters") and cfg.get("n_burn_in_iter") is not None and not cfg.get("annealing"):
+                    # documented route (docstring example of `load_parameters`): the algorithm object exists already, then the number of
+                    # iterations and the explicit burn-in count are given to it
+                    late = {"n_iter": kw_algo["n_iter"], "n_burn_in_iter": kw_algo["n_burn_in_iter"]}
+                    kw_algo = dict(kw_algo, n_iter=100, n_burn_in_iter=None, n_burn_in_iter_frac=0.9)
+                    self.counters["probe.count_given_through_load_parameters"] += 1
+                settings = AlgorithmSettings("mcmc_saem", **kw_algo)
                 if cfg.get("logs"):
                     settings.set_logs(**cfg["logs"])
                 self.settings = settings
                 algo = algorithm_factory(settings)
+                if late:
+                    algo.load_parameters(late)
                 self.algo = algo
                 self.constructed = True
                 if not self.model.is_initialized:
